@@ -1447,6 +1447,17 @@ class Controller:
             )
             return
 
+        cis_link = self.central_cis_links.get(handle) or self.peripheral_cis_links.get(
+            handle
+        )
+        if cis_link and not cis_link.acl_connection:
+            # A CIS that is configured but not created (or disconnected already):
+            # nothing to disconnect, no disconnection complete event will follow
+            self._send_hci_command_status(
+                hci.HCI_ErrorCode.COMMAND_DISALLOWED_ERROR, command.op_code
+            )
+            return
+
         # First, say that the disconnection is pending
         self._send_hci_command_status(hci.HCI_COMMAND_STATUS_PENDING, command.op_code)
 
